@@ -459,6 +459,14 @@ theorem C16_names_spaced (n : Codes) (k : Key) (h : (n, k) ∈ aliases) {w ws ws
     normalize names (ws ++ wN ++ 32 :: W ++ w ++ ws') = some (k.codes, true) :=
   name_not_spaced n k h hw hN hws hws' hW
 
+/-- **C16 (names, white space before ` not`).** Symmetrically, any white space BEFORE the literal space of a
+trailing ` not`. -/
+theorem C16_names_spaced_suffix (n : Codes) (k : Key) (h : (n, k) ∈ aliases) {w ws ws' wN W : Str}
+    (hw : lower w = n) (hN : lower wN = sNot) (hws : ws.all isSpace = true) (hws' : ws'.all isSpace = true)
+    (hW : W.all isSpace = true) :
+    normalize names (ws ++ w ++ W ++ 32 :: wN ++ ws') = some (k.codes, true) :=
+  name_not_suffix_spaced n k h hw hN hws hws' hW
+
 /-- **C16 (names, any white space after `!`).** -/
 theorem C16_names_spaced_bang (n : Codes) (k : Key) (h : (n, k) ∈ aliases) {w ws ws' W : Str} (hw : lower w = n)
     (hws : ws.all isSpace = true) (hws' : ws'.all isSpace = true) (hW : W.all isSpace = true) :
